@@ -16,6 +16,8 @@
 from __future__ import annotations
 
 from pyvc import arrays
+import ast
+
 from .common import *  # noqa: F401,F403
 from . import detmodel as D
 from .C02 import T, START, steps_spec, N
@@ -28,9 +30,26 @@ PC = "pyxel/models/photon_collection/"
 CG = "pyxel/models/charge_generation/"
 
 
-def pure_contract(qual, name):
+def memoised_on_chain(world, fi, depth=0, seen=None) -> list:
+    """qualified names of the functions reachable (by name, inside pyxel/) from fi — fi included — that are memoised (lru_cache / cache):
+    such a helper hands out the SAME object again for equal arguments"""
+    seen = seen if seen is not None else set()
+    if fi.qualname in seen or depth > 6:
+        return []
+    seen.add(fi.qualname)
+    out = [fi.qualname] if any(w in ast.unparse(d).lower() for d in fi.node.decorator_list for w in ("cache", "memo")) else []
+    for n in ast.walk(fi.node):
+        if isinstance(n, ast.Call) and isinstance(n.func, ast.Name):
+            r = world.resolve(fi.module, n.func.id)
+            if r and r[0] == "function" and r[1].module.relpath.startswith("pyxel/"):
+                out.extend(memoised_on_chain(world, r[1], depth + 1, seen))
+    return out
+
+
+def pure_contract(qual, name, shared=True):
     """Deterministic helper: the result is an uninterpreted frame indexed by the (symbolic) arguments; the same
-    arguments give the same frame (needed to compare two executions)."""
+    arguments give the same frame (needed to compare two executions). `shared`: the helper (or something it calls) is memoised, so equal
+    arguments give the same array OBJECT; otherwise every call builds a new array (numpy constructors) that the caller may change."""
     def apply(ex, args, kwargs, fr):
         if any(isinstance(v, VRef) and isinstance(ex.st.cell(v), HObj) and not isinstance(ex.st.cell(v).cls, str) and getattr(ex.st.cell(v).cls, "name", "") in
                ("CCD", "Detector", "CMOS", "ReadoutProperties") for v in list(args) + list(kwargs.values())):
@@ -44,6 +63,8 @@ def pure_contract(qual, name):
         f = memo[key]
         # the helper may hand out the SAME array object for equal arguments (a cache, a module-level table): a caller that scales it
         # in place would corrupt every later step. The contract therefore returns one object per argument tuple.
+        if not shared:
+            return ex.st.alloc(HArr((D.ROWS, D.COLS), VDtype("float64"), lambda ix, f=f: VFloat(f(z_int(ix[0]), z_int(ix[1])))))
         objs = ex.st.ghost.setdefault("PURE_OBJ", {})
         if key not in objs:
             objs[key] = ex.st.alloc(HArr((D.ROWS, D.COLS), VDtype("float64"), lambda ix, f=f: VFloat(f(z_int(ix[0]), z_int(ix[1])))))
@@ -108,13 +129,16 @@ def run(model, steps_times, kwargs, bucket):
         out.append(np.array(getattr(det, bucket).array))
     return out
 VIOLATED, DETAIL = False, ''
-for model, kwargs, bucket in ((illumination, dict(level=3.0), 'photon'), (stripe_pattern, dict(period=2, level=5.0), 'photon'), (stripe_pattern, dict(period=2, level=5.0, angle=25), 'photon'),
+for model, kwargs, bucket in ((illumination, dict(level=3.0), 'photon'), (illumination, dict(level=3.0, time_scale=0.5), 'photon'),
+                              (illumination, dict(level=100.0, option='elliptic', object_size=[2, 3], object_center=[2, 3], time_scale=0.5), 'photon'),
+                              (illumination, dict(level=100.0, option='rectangular', object_size=[2, 3], object_center=[2, 3], time_scale=4.0), 'photon'),
+                              (load_image, dict(image_file=fn, time_scale=0.25), 'photon'), (load_charge, dict(filename=fn, time_scale=2.0), 'charge'), (stripe_pattern, dict(period=2, level=5.0), 'photon'), (stripe_pattern, dict(period=2, level=5.0, angle=25), 'photon'),
                               (load_image, dict(image_file=fn), 'photon'), (load_charge, dict(filename=fn), 'charge'),
                               (dark_current, dict(figure_of_merit=2.0, temporal_noise=False), 'charge'),
                               (dark_current, dict(figure_of_merit=2.0, temporal_noise=False, band_gap=1.1, band_gap_room_temperature=1.12), 'charge')):
     a, b = run(model, [(2.0, 2.0), (5.0, 3.0)], kwargs, bucket)
     if not np.allclose(a * 1.5, b) or not np.any(b > 0):
-        VIOLATED, DETAIL = True, f'{model.__name__}{kwargs if model is stripe_pattern else ""}: increment for a 3 s step is not 1.5x the increment of a 2 s step: {a.ravel()[:3]} vs {b.ravel()[:3]}'
+        VIOLATED, DETAIL = True, f'{model.__name__}{kwargs if model is not dark_current else ""}: increment for a 3 s step is not 1.5x the increment of a 2 s step: {a.ravel()[:3]} vs {b.ravel()[:3]}'
 """, "expect": "the increment of a flux model is proportional to its own time step and independent of the rest of the clock"}
 
 
@@ -124,7 +148,11 @@ def linear_unit(label, qual, bucket, kwargs_of, helper_quals):
         for prior in (False, True):
             cfg = D.install(Cfg("real"))
             for hq, hn in helper_quals:
-                cfg.contracts[hq] = pure_contract(hq, hn)
+                memo = memoised_on_chain(u.world, u.world.function(hq))
+                cfg.contracts[hq] = pure_contract(hq, hn, shared=bool(memo))
+                if not prior:
+                    u.static(f"linear[{label}].helper_result[{hn}]", True, hq, f"{hn}: " + (f"memoised through {memo}: equal arguments give the same array object (a caller must not change it)" if memo
+                                                                                             else "no memoised function on its chain: every call builds a new array"))
             u.internal_replay, u.internal_witness = LIN_REPLAY, {}
             res = {}
 
